@@ -25,12 +25,13 @@ NOT_APPLICABLE = [
 CORE_HALF = {"crate": "core", "features": ["half"]}
 
 def core(filters, features=("half",), **kw):
-    g = {"crate": "core", "features": list(features), "filters": filters}
+    g = {"crate": "core", "features": list(features), "filters": filters, "zflags": ["stubbing"]}
     g.update(kw)
     return g
 
 PROPS = {
     "ZZ": {"title": "driver self-test (must report a VIOLATION)", "groups": [core(["zz_fail_probe"])]},
+    "TY": {"title": "scratch: codec table", "groups": [core(["types::"])]},
     "C05": {
         "title": "integer decoding never wraps or truncates",
         "bounds": "input = one CBOR head of 9 fully symbolic bytes with symbolic length 0..=9 (every sign x width x argument, "
